@@ -547,6 +547,18 @@ fn inspect_ssa(c: &Circuit, honest: bool, obs: &mut Obs, seedtag: u64, also_conv
         }
         Ok(Err(e)) => {
             bump(&mut obs.counters, &format!("ssa_rejected_{}", format!("{e:?}").split('(').next().unwrap_or("")));
+            if also_convert && !honest && bits.unwrap_or(usize::MAX) <= MAX_EVAL_BITS {
+                // an engine that converts first and validates the register form afterwards: the
+                // conversion of a rejected SSA circuit may panic (that is its business), but a
+                // register circuit it does return is just another circuit value: accepted => safe
+                match guarded(|| rc::Circuit::from(c)) {
+                    Err(_) => bump(&mut obs.counters, "conversion_panicked_on_rejected_ssa"),
+                    Ok(r) => {
+                        bump(&mut obs.counters, "converted_rejected_ssa_to_register");
+                        inspect_reg(&r, false, obs, seedtag);
+                    }
+                }
+            }
             if honest {
                 // the one shape with its own signature: a program none of whose parties supplies an input bit
                 let no_bits = bits == Some(0);
@@ -927,9 +939,9 @@ pub struct Tier {
 
 pub fn tier(t: &str) -> Tier {
     if t == "thorough" {
-        Tier { honest: 30_000, sweep: 400, seeded: 1_000_000, bristol: 300_000 }
+        Tier { honest: 8_000, sweep: 400, seeded: 64_000, bristol: 20_000 }
     } else {
-        Tier { honest: 1_500, sweep: 40, seeded: 40_000, bristol: 12_000 }
+        Tier { honest: 400, sweep: 40, seeded: 2_500, bristol: 750 }
     }
 }
 
@@ -1319,6 +1331,20 @@ pub fn make_world(plan: &CasePlan, seed: u64, idx: u64) -> (World, &'static str,
     let (family, _) = plan.family(idx);
     let mut p = Prng::for_case(seed, "C16", idx);
     let keys = Keys::draw(&mut p);
+    let w = draw_world(plan, family, idx, keys, &mut p);
+    (w, family, p)
+}
+
+/// How many messages the receiver of one case handles, one after the other on one thread.
+pub fn stream_len(family: &str) -> usize {
+    match family {
+        "honest" => 4,
+        "seeded" | "bristol" => 16,
+        _ => 1,
+    }
+}
+
+fn draw_world(plan: &CasePlan, family: &str, idx: u64, keys: Keys, p: &mut Prng) -> World {
     let dedup = p.chance(3, 4);
     let mut w = World { program: None, dedup, keys, channel: Channel::JsonSsa, faults: vec![], raw_message: None, prior: vec![] };
     match family {
@@ -1330,39 +1356,39 @@ pub fn make_world(plan: &CasePlan, seed: u64, idx: u64) -> (World, &'static str,
                 let a = analyse(&e.src, &mut ap);
                 ProgSpec { name: e.name.clone(), src: e.src.clone(), consts: a.consts }
             } else if p.chance(1, 2) {
-                let src = gen::program(&mut p);
+                let src = gen::program(p);
                 let mut ap = p.fork();
                 let a = analyse(&src, &mut ap);
                 ProgSpec { name: "generated".into(), src, consts: a.consts }
             } else if p.chance(1, 6) {
-                tiny_subject(&mut p)
+                tiny_subject(p)
             } else {
-                small_subject(&mut p)
+                small_subject(p)
             };
             w.program = Some(prog);
             w.channel = *p.pick(&[Channel::JsonSsa, Channel::JsonReg, Channel::JsonTypeSsa, Channel::JsonTypeReg]);
         }
         "sweep" => {
             let (_, sub) = plan.family(idx);
-            w.program = Some(sweep_subject(sub, &mut p));
+            w.program = Some(sweep_subject(sub, p));
             w.dedup = sub % 2 == 0 || sub >= N_FIXED_TINY && w.dedup;
         }
         "seeded" => {
-            w.program = Some(if p.chance(1, 2) { tiny_subject(&mut p) } else { small_subject(&mut p) });
+            w.program = Some(if p.chance(1, 2) { tiny_subject(p) } else { small_subject(p) });
             w.channel = *p.pick(&[Channel::JsonSsa, Channel::JsonReg, Channel::JsonReg, Channel::JsonTypeSsa, Channel::JsonTypeReg]);
             if let Some(msg) = message_of(&w) {
-                w.faults = draw_faults(&mut p, &msg, w.channel);
+                w.faults = draw_faults(p, &msg, w.channel);
             }
         }
         _ => {
-            w.program = Some(if p.chance(1, 2) { tiny_subject(&mut p) } else { small_subject(&mut p) });
+            w.program = Some(if p.chance(1, 2) { tiny_subject(p) } else { small_subject(p) });
             w.channel = Channel::Bristol;
             if let Some(msg) = message_of(&w) {
-                w.faults = draw_faults(&mut p, &msg, w.channel);
+                w.faults = draw_faults(p, &msg, w.channel);
             }
         }
     }
-    (w, family, p)
+    w
 }
 
 fn has_class(o: &Obs, class: &str) -> Option<Finding> {
@@ -1463,11 +1489,17 @@ pub fn run_case(plan: &CasePlan, seed: u64, idx: u64) -> CaseResult {
     };
     acc.d.u64(idx);
     acc.d.str(&serde_json::to_string(&w).unwrap());
+    let mut p = p;
     if family == "sweep" {
         run_sweep(&w, &mut acc);
     } else {
-        let o = run_world(&w);
-        absorb(&o, &w, &mut acc);
+        // the receiver handles a stream of messages on one thread (a long-lived receiver)
+        let mut stream = vec![w.clone()];
+        for _ in 1..stream_len(family) {
+            stream.push(draw_world(plan, family, idx, w.keys, &mut p));
+        }
+        let obs = run_worlds(w.keys, &stream);
+        absorb_batch(&obs, &stream, &mut acc);
     }
     acc.d.u64(p.draws);
     *acc.counters.entry("damaged_circuits_accepted_and_evaluated".into()).or_insert(0) += acc.accepted_damaged;
